@@ -19,7 +19,7 @@ TReset ==
     /\ hs' = [h \in Hosts |-> [polls |-> 0, sent |-> 0, fact |-> 1, glive |-> 0]]
     /\ lst' = [bound |-> FALSE, since |-> 0, q |-> <<>>]
     /\ ud' = [h \in Hosts |-> FALSE]
-    /\ cn' = <<>> /\ net' = <<>> /\ oc' = <<>> /\ wk' = {}
+    /\ cn' = <<>> /\ net' = <<>> /\ oc' = <<>> /\ wk' = {} /\ dlv' = [h \in Hosts |-> <<>>] /\ nlat' = 0
     /\ nid' = 0 /\ ndg' = 0 /\ nflt' = 0
     /\ last' = [a |-> "init"]
 
@@ -49,6 +49,7 @@ TNext ==
     \/ Is("step_end") /\ StepEnd /\ last'.polls = E.polls /\ last'.sent = E.sent
     \/ Is("crash") /\ (\E fr \in FrChoices : Crash(E.h, fr)) /\ last'.obs = E.obs
     \/ Is("bounce") /\ (\E fr \in FrChoices : Bounce(E.h, fr)) /\ last'.obs = E.obs
+    \/ Is("setlat") /\ SetLat(E.v)
     \/ Is("twin") /\ P_Twin(E.equal) /\ UNCHANGED ivars /\ last' = [a |-> "twin"]
 
 TSpec == TInit /\ [][TNext]_<<vars, l>>
